@@ -366,3 +366,68 @@ theorem effB_heapUpd (I : Interp D) (args : Args D) (b : Basic) (st : St D) (l :
   | clear => simp [effB] at h
 
 end NutilsVerif.C03
+
+namespace NutilsVerif.C03
+variable {D : Type}
+
+/-- where a new binding points: its own fresh buffer, an argument buffer, or the buffer of a variable that was read -/
+theorem effB_envUpd_loc (I : Interp D) (args : Args D) (b : Basic) (st : St D) (x : Var) (r : Ref)
+    (h : (effB I args b st).envUpd = some (x, r)) :
+    r.loc = .var x ∨ (∃ a, r.loc = .arg a) ∨ ∃ u ∈ b.reads, ∃ a, st.env u = some a ∧ a.loc = r.loc := by
+  cases b with
+  | fresh dst op srcs =>
+    simp only [effB] at h
+    cases hv : vals I st srcs <;> simp [hv, freshEff] at h
+    left; rw [← h.2, ← h.1]
+  | getarg dst a cop =>
+    simp only [effB] at h
+    cases ha : args a with
+    | none => simp [ha] at h
+    | some g =>
+      simp only [ha] at h
+      split at h <;> simp [freshEff] at h
+      · left; rw [← h.2, ← h.1]
+      · right; left; exact ⟨a, by rw [← h.2]⟩
+  | view dst vop may src =>
+    simp only [effB] at h
+    cases he : st.env src with
+    | none => simp [he] at h
+    | some r0 =>
+      simp only [he] at h
+      split at h <;> simp [freshEff] at h
+      · left; rw [← h.2, ← h.1]
+      · right; right; exact ⟨src, by simp [Basic.reads], r0, he, by rw [← h.2]⟩
+  | write dst op srcs =>
+    simp only [effB] at h
+    split at h
+    · split at h <;> simp at h
+    · simp at h
+  | setro v =>
+    simp only [effB] at h
+    cases he : st.env v with
+    | none => simp [he] at h
+    | some r0 =>
+      simp [he] at h
+      right; right; exact ⟨v, by simp [Basic.reads], r0, he, by rw [← h.2]⟩
+  | guard op srcs =>
+    simp only [effB] at h
+    cases hv : vals I st srcs with
+    | none => simp [hv] at h
+    | some ds => simp only [hv] at h; split at h <;> simp at h
+  | clear => simp [effB] at h
+
+theorem applyEff_env_frame (st : St D) (e : Eff D) (v : Var) (h : ∀ x r, e.envUpd = some (x, r) → v ≠ x) :
+    (applyEff st e).env v = st.env v := by
+  rw [applyEff_env]
+  cases e.err <;> cases hu : e.envUpd <;> simp only
+  rename_i p; obtain ⟨x, r⟩ := p
+  simp [h x r hu]
+
+theorem applyEff_heap_frame (st : St D) (e : Eff D) (l : Loc) (h : ∀ l' d, e.heapUpd = some (l', d) → l ≠ l') :
+    (applyEff st e).heap l = st.heap l := by
+  rw [applyEff_heap]
+  cases e.err <;> cases hu : e.heapUpd <;> simp only
+  rename_i p; obtain ⟨l', d⟩ := p
+  simp [h l' d hu]
+
+end NutilsVerif.C03
